@@ -506,6 +506,8 @@ def monitor_history(ops, obs):
     live = {}          # blk -> (size, align)
     dropped = set()
     leaked_ok = set()
+    written = {}
+    ever_written = {}
     pre = {}
     for i in range(1, len(ops)):
         o = obs[i] if i < len(obs) else None
@@ -610,6 +612,81 @@ def monitor_history(ops, obs):
             if f[0] == "cb":
                 for m in re.finditer(r"cnt=([\d|]+);", o["out"]):
                     pass
+        # C06: a constructor that succeeds delivers exactly the given header and elements, in order,
+        # destroys none of them, and leaves no source storage behind
+        if f[0] in ("create", "iter") and st == "ok" and len(f) > 2 and f[1].isdigit() and int(f[1]) in post and int(f[1]) not in pre:
+            d = post[int(f[1])]
+            want_items = None
+            want_hdr = None
+            if f[0] == "create":
+                c = f[2]
+                if c in ("new", "newB", "fromBox", "uniqueNew"):
+                    want_items = [f[3]]
+                elif c == "fromVec":
+                    want_items = [] if f[4] == "-" else f[4].split(",")
+                elif c == "hsFromVec":
+                    want_hdr, want_items = f[3], ([] if f[5] == "-" else f[5].split(","))
+                elif c == "hwlFromVec":
+                    want_hdr, want_items = f[3], ([] if f[6] == "-" else f[6].split(","))
+            else:
+                its = f[6][len("items="):]
+                want_items = [] if its == "-" else its.split(",")
+                want_hdr = None if f[3] == "-" else f[3]
+            if want_items is not None:
+                exp = ("h" + want_hdr.replace(":", ".") if want_hdr else "") + "[" + ",".join(x.replace(":", ".") for x in want_items) + "]"
+                if d["dig"] != exp:
+                    fails.append((i, ["C06"], "constructor delivered %s, the input was %s" % (d["dig"], exp)))
+                ids = {x.split(":")[0] for x in want_items} | ({want_hdr.split(":")[0]} if want_hdr else set())
+                for e in o["ev"]:
+                    if e.startswith("drop:") and e[5:] in ids:
+                        fails.append((i, ["C06"], "constructor destroyed an input value it should have moved: %s" % e))
+                if d["cnt"].isdigit() and d["cnt"] != "1":
+                    fails.append((i, ["C06"], "fresh handle reports count %s" % d["cnt"]))
+        # C15: uninitialised handles
+        if f[0] == "writeSlot" and st == "ok" and src is not None and src in pre:
+            written.setdefault(pre[src]["blk"], {})[f[2]] = f[3].split(":")[0]
+            ever_written.setdefault(pre[src]["blk"], set()).add(f[3].split(":")[0])
+        if f[0] == "conv" and len(f) > 2 and f[2] == "assumeInit" and st == "ok" and src in pre and src in post:
+            if post[src]["blk"] != pre[src]["blk"] or post[src]["cnt"] != pre[src]["cnt"] or o["ev"]:
+                fails.append((i, ["C15"], "assume_init changed allocation/count or caused events: %s -> %s %s" % (pre[src], post[src], o["ev"])))
+            got = set(re.findall(r"(\d+)\.\d+", post[src]["dig"].split("[")[-1]))
+            latest = set(written.get(pre[src]["blk"], {}).values())
+            if not latest <= got | set(re.findall(r"(\d+)\.", post[src]["dig"])):
+                fails.append((i, ["C15"], "after assume_init the written values are not what is visible: %s vs %s" % (sorted(latest), post[src]["dig"])))
+        if f[0] == "drop" and st == "ok" and src in pre and pre[src]["ty"] in ("mu", "muSlice", "hsMu"):
+            w = ever_written.get(pre[src]["blk"], set())
+            for e in o["ev"]:
+                if e.startswith("drop:") and e[5:] in w:
+                    fails.append((i, ["C15"], "dropping an uninitialised-typed handle ran an element destructor: %s" % e))
+        # C10: thin <-> fat conversions keep allocation, contents and count; replace redirects
+        if f[0] == "conv" and len(f) > 2 and f[2] in ("fromThin", "thinIntoRaw", "thinFromRaw") and st == "ok" and src in pre and src in post:
+            a, b2 = pre[src], post[src]
+            if (a["blk"], a["dig"], a["len"]) != (b2["blk"], b2["dig"], b2["len"]) or o["ev"] or owners(pre, a["blk"]) != owners(post, a["blk"]):
+                fails.append((i, ["C10"], "thin/fat conversion changed what is seen: %s -> %s %s" % (a, b2, o["ev"])))
+        if f[0] == "intoThin" and src in pre:
+            a = pre[src]
+            if st == "ok" and src in post and ((a["blk"], a["dig"], a["len"]) != (post[src]["blk"], post[src]["dig"], post[src]["len"]) or o["ev"]):
+                fails.append((i, ["C10"], "into_thin changed what is seen: %s -> %s" % (a, post[src])))
+            if st.startswith("panic") and (src in post or owners(post, a["blk"]) != owners(pre, a["blk"]) - 1):
+                fails.append((i, ["C10"], "into_thin refused but did not release exactly its argument"))
+        if f[0] == "cb" and len(f) > 3 and f[2] == "thinWithArcMut" and "replaced;" in o["out"] and src in pre and src in post:
+            ks = [int(x.split(":")[1]) for x in f[3].split(",") if x.startswith("replace:")]
+            done = o["out"].split(";")
+            k_used = None
+            acts = f[3].split(",")
+            ri = 0
+            cur = pre[src]["blk"]
+            tmp = dict(pre)
+            for a_i, act in enumerate(acts):
+                if a_i >= len(done) - 1:
+                    break
+                if act.startswith("replace:") and done[a_i] == "replaced":
+                    kk = int(act.split(":")[1])
+                    if kk in tmp:
+                        cur = tmp[kk]["blk"]
+                        del tmp[kk]
+            if post[src]["blk"] != cur:
+                fails.append((i, ["C10", "C07"], "with_arc_mut replaced the Arc but the ThinArc points at b%d instead of b%d" % (post[src]["blk"], cur)))
         # C10: a thin handle's view has as many elements as its digest shows
         for k, s in post.items():
             if s["kind"] in ("thin", "rawThin") or s["ty"] in ("slice", "uslice", "hs", "hwl"):
